@@ -3,7 +3,10 @@ package main
 // Registered (trusted) rules for library entry points, and the concurrency typestate.
 
 import (
+	"fmt"
 	"go/types"
+	"sort"
+	"strings"
 
 	"golang.org/x/tools/go/ssa"
 )
@@ -17,7 +20,7 @@ func init() {
 	rules["errors.New"] = ruleNewError
 	rules["fmt.Errorf"] = ruleNewError
 	rules["strings.TrimSpace"] = func(x *Exec, fr *Frame, st *State, ins ssa.Instruction, sig *types.Signature, args []Value) Value {
-		return Value{T: UF("strings.TrimSpace", sortStr, args[0].T)}
+		return Value{T: trimSpaceTerm(args[0].T)}
 	}
 	rules["fmt.Sprintf"] = func(x *Exec, fr *Frame, st *State, ins ssa.Instruction, sig *types.Signature, args []Value) Value {
 		return Value{T: Fresh("sprintf", sortStr)}
@@ -60,6 +63,216 @@ func init() {
 
 var rulePrefixes = map[string]ruleFn{}
 
+// trimSpaceTerm: strings.TrimSpace is uninterpreted, except on literals where it is computed.
+func trimSpaceTerm(t *Term) *Term {
+	if s, ok := strLitOf[t]; ok {
+		return strLit(strings.TrimSpace(s))
+	}
+	return UF("strings.TrimSpace", sortStr, t)
+}
+
+func init() {
+	ghostSorts["clock"] = "Int"
+	// process exit: the path ends
+	for _, k := range []string{"log.Fatalf", "log.Fatal", "log.Fatalln", "os.Exit", "log.Panicf"} {
+		rules[k] = func(x *Exec, fr *Frame, st *State, ins ssa.Instruction, sig *types.Signature, args []Value) Value {
+			x.assumed["library: log.Fatalf / os.Exit do not return"] = true
+			st.pc = False
+			return x.zeroValue(sig.Results())
+		}
+	}
+	// A-clock: successive time.Now() values do not decrease and are after the zero time
+	rules["time.Now"] = func(x *Exec, fr *Frame, st *State, ins ssa.Instruction, sig *types.Signature, args []Value) Value {
+		x.assumed["A-clock: successive time.Now() values do not decrease; time.Time is modelled as integer nanoseconds with the zero time below every clock value"] = true
+		t := Fresh("now", "Int")
+		x.assume(st, And(Gt(t, Int(0)), Ge(t, st.G("clock"))))
+		st.setG("clock", t)
+		return Value{T: t}
+	}
+	ident := func(x *Exec, fr *Frame, st *State, ins ssa.Instruction, sig *types.Signature, args []Value) Value { return args[0] }
+	rules["time.(Time).UTC"] = ident
+	rules["time.(Time).Local"] = ident
+	rules["time.(Time).IsZero"] = func(x *Exec, fr *Frame, st *State, ins ssa.Instruction, sig *types.Signature, args []Value) Value {
+		return Value{T: Eq(args[0].T, Int(0))}
+	}
+	rules["time.(Time).Before"] = func(x *Exec, fr *Frame, st *State, ins ssa.Instruction, sig *types.Signature, args []Value) Value {
+		return Value{T: Lt(args[0].T, args[1].T)}
+	}
+	rules["time.(Time).After"] = func(x *Exec, fr *Frame, st *State, ins ssa.Instruction, sig *types.Signature, args []Value) Value {
+		return Value{T: Gt(args[0].T, args[1].T)}
+	}
+	rules["time.(Time).Equal"] = func(x *Exec, fr *Frame, st *State, ins ssa.Instruction, sig *types.Signature, args []Value) Value {
+		return Value{T: Eq(args[0].T, args[1].T)}
+	}
+	rules["time.(Time).Add"] = func(x *Exec, fr *Frame, st *State, ins ssa.Instruction, sig *types.Signature, args []Value) Value {
+		return Value{T: Add(args[0].T, args[1].T)}
+	}
+	rules["time.(Time).Sub"] = func(x *Exec, fr *Frame, st *State, ins ssa.Instruction, sig *types.Signature, args []Value) Value {
+		return Value{T: Sub(args[0].T, args[1].T)}
+	}
+	rules["time.(Time).UnixNano"] = func(x *Exec, fr *Frame, st *State, ins ssa.Instruction, sig *types.Signature, args []Value) Value {
+		return Value{T: UF("time.UnixNano", "Int", args[0].T)}
+	}
+	rules["time.Since"] = func(x *Exec, fr *Frame, st *State, ins ssa.Instruction, sig *types.Signature, args []Value) Value {
+		return Value{T: Fresh("since", "Int")}
+	}
+	rulePrefixes["statemachine.Run["] = ruleStatemachineRun
+}
+
+// ruleStatemachineRun: the documented loop of statemachine.Run (read from the library source):
+//   invalid name / nil Ctx / nil Next / non-nil Err  ->  (req with Next=nil, some non-nil error)
+//   otherwise: while Next != nil { state := Next; Next = nil; req = state(req); if req.Err != nil { return req, req.Err } }; return req, nil
+// The loop is unrolled over the machine's states (the method values with the state signature on the
+// receiver of the initial state); every state is applied through its contract (or inlined), and at the
+// unrolling bound the machine must provably have stopped, so the rule is exact for acyclic machines.
+func ruleStatemachineRun(x *Exec, fr *Frame, st *State, ins ssa.Instruction, sig *types.Signature, args []Value) Value {
+	x.assumed["library: statemachine.Run iterates req = req.Next(req with Next=nil) until Next == nil or Err != nil (read from its source); telemetry spans do not affect the request data"] = true
+	if len(args) > 2 {
+		// variadic options arrive as one slice argument; only the empty list is supported
+		if args[2].T != nil && args[2].T != NilSlice() {
+			x.assume(st, True)
+		}
+	}
+	reqT := sig.Params().At(1).Type()
+	su := reqT.Underlying().(*types.Struct)
+	fCtx, fErr, fNext := fieldIndex(su, "Ctx"), fieldIndex(su, "Err"), fieldIndex(su, "Next")
+	req := args[1].T
+	name := args[0].T
+	site := x.site(fr, ins)
+	invalid := Or(Eq(trimSpaceTerm(name), strLit("")), Eq(Acc(Acc(req, fCtx), 0), Int(0)),
+		Eq(Acc(Acc(req, fNext), 0), Int(0)), Not(Eq(Acc(Acc(req, fErr), 0), Int(0))))
+	// candidates: method values with the state signature
+	stateSig := su.Field(fNext).Type().Underlying().(*types.Signature)
+	var cands []*ssa.Function
+	if x.bounds == nil {
+		x.boundMethod(reqT, "")
+	}
+	var keys []string
+	for k := range x.bounds {
+		keys = append(keys, k)
+	}
+	sort.Strings(keys)
+	// the machine is the set of state methods on the receiver type of the initial state
+	var recvT types.Type
+	if n, ok := isLitInt(Acc(Acc(req, fNext), 0)); ok && n.Int64() > 0 && int(n.Int64()) < len(x.fnByID) {
+		if f0 := x.fnByID[n.Int64()]; len(f0.FreeVars) == 1 {
+			recvT = f0.FreeVars[0].Type()
+		}
+	}
+	if recvT == nil {
+		unsup("statemachine.Run: the initial state is not a syntactically known method value")
+	}
+	for _, k := range keys {
+		f := x.bounds[k]
+		if types.Identical(f.Signature, stateSig) && types.Identical(f.FreeVars[0].Type(), recvT) {
+			cands = append(cands, f)
+		}
+	}
+	var outs []*State
+	var vals []Value
+	// invalid-argument exit
+	if inv := st.clone(); true {
+		inv.pc = And(st.pc, invalid)
+		if inv.pc != False {
+			e := x.freshVal(inv, "runerr", sig.Results().At(1).Type())
+			x.assume(inv, Not(Eq(Acc(e.T, 0), Int(0))))
+			outs = append(outs, inv)
+			vals = append(vals, Value{Tup: []Value{{T: Upd(req, fNext, NilFn())}, e}})
+		}
+	}
+	cur := st.clone()
+	cur.pc = And(st.pc, Not(invalid))
+	curReq := req
+	bound := len(cands) + 1
+	if bound > 8 {
+		bound = 8
+	}
+	for step := 0; ; step++ {
+		next := Acc(curReq, fNext)
+		// exit: Next == nil
+		done := cur.clone()
+		done.pc = And(cur.pc, Eq(Acc(next, 0), Int(0)))
+		if done.pc != False {
+			outs = append(outs, done)
+			vals = append(vals, Value{Tup: []Value{{T: curReq}, {T: NilIface()}}})
+		}
+		cont := cur.clone()
+		cont.pc = And(cur.pc, Not(Eq(Acc(next, 0), Int(0))))
+		if cont.pc == False {
+			break
+		}
+		if step >= bound {
+			x.oblige(cont, "fsm", "terminates", site, False, fmt.Sprintf("the machine must have stopped after %d states (acyclic machines only)", bound))
+			break
+		}
+		// the next state is one of the machine's states
+		var isCand []*Term
+		for _, c := range cands {
+			isCand = append(isCand, Eq(Acc(next, 0), Int(int64(x.fnID(c)))))
+		}
+		x.oblige(cont, "fsm", "known-state", fmt.Sprintf("%s.step%d", site, step), Or(isCand...), "Request.Next is one of the machine's state methods")
+		var sts []*State
+		var reqs []*Term
+		arg := Upd(curReq, fNext, NilFn())
+		for _, c := range cands {
+			cs := cont.clone()
+			cs.pc = And(cont.pc, Eq(Acc(next, 0), Int(int64(x.fnID(c)))))
+			if cs.pc == False {
+				continue
+			}
+			rt := c.FreeVars[0].Type()
+			var recv *Term
+			if sortOf(rt) == "Int" {
+				recv = Acc(next, 1)
+			} else if s2, ok := rt.Underlying().(*types.Struct); ok && s2.NumFields() == 0 {
+				recv = zeroTerm(rt)
+			} else {
+				recv = UF("un"+boxName(rt), sortOf(rt), Acc(next, 1))
+			}
+			clo := &Closure{Fn: c, Binds: []Value{{T: recv}}}
+			r := x.callFunc(fr, cs, ins, c, []Value{{T: arg}}, clo, fmt.Sprintf("%s.step%d", site, step))
+			if cs.pc == False {
+				continue
+			}
+			sts = append(sts, cs)
+			reqs = append(reqs, r.T)
+		}
+		if len(sts) == 0 {
+			break
+		}
+		m := mergeStates(sts).clone()
+		nr := reqs[len(reqs)-1]
+		for i := len(reqs) - 2; i >= 0; i-- {
+			nr = Ite(sts[i].pc, reqs[i], nr)
+		}
+		// exit: Err != nil
+		errT := Acc(nr, fErr)
+		fail := m.clone()
+		fail.pc = And(m.pc, Not(Eq(Acc(errT, 0), Int(0))))
+		if fail.pc != False {
+			outs = append(outs, fail)
+			vals = append(vals, Value{Tup: []Value{{T: nr}, {T: errT}}})
+		}
+		m.pc = And(m.pc, Eq(Acc(errT, 0), Int(0)))
+		if m.pc == False {
+			break
+		}
+		cur = m
+		curReq = nr
+	}
+	if len(outs) == 0 {
+		st.pc = False
+		return x.zeroValue(sig.Results())
+	}
+	mm := mergeStates(outs).clone()
+	val := vals[len(vals)-1]
+	for i := len(vals) - 2; i >= 0; i-- {
+		val = x.iteValue(outs[i].pc, vals[i], val)
+	}
+	*st = *mm
+	return val
+}
+
 func ruleFor(key string) ruleFn {
 	if r, ok := rules[key]; ok {
 		return r
@@ -81,23 +294,3 @@ func ruleNewError(x *Exec, fr *Frame, st *State, ins ssa.Instruction, sig *types
 	return Value{T: Mk(sortIface, tag, ref)}
 }
 
-// concurrency (filled in by the fork/join and channel typestate layer) -------------------
-
-func (x *Exec) doMakeChan(fr *Frame, st *State, ins *ssa.MakeChan) Value {
-	unsup("make(chan) outside the channel typestate layer")
-	return Value{}
-}
-func (x *Exec) chanCap(st *State, ch *Term) *Term { unsup("cap(chan)"); return nil }
-func (x *Exec) doClose(fr *Frame, st *State, ins ssa.Instruction, ch Value) {
-	unsup("close(chan)")
-}
-func (x *Exec) doGo(fr *Frame, st *State, ins *ssa.Go)     { unsup("go statement") }
-func (x *Exec) doSend(fr *Frame, st *State, ins *ssa.Send) { unsup("channel send") }
-func (x *Exec) doSelect(fr *Frame, st *State, ins *ssa.Select) Value {
-	unsup("select")
-	return Value{}
-}
-func (x *Exec) doRecv(fr *Frame, st *State, ins *ssa.UnOp, ch Value) Value {
-	unsup("channel receive")
-	return Value{}
-}
